@@ -59,7 +59,6 @@ Definition evm_run (inp : list Z) : list Z :=
   let '(bf, l) := pop1 l in let '(ci, l) := pop1 l in let '(cb, l) := pop1 l in
   let '(df, l) := pop1 l in let '(gl, l) := pop1 l in let '(nu, l) := pop1 l in
   let '(ts, l) := pop1 l in
-  let blk := mkBlock bf ci cb df gl nu ts in
   let '(this, l) := pop1 l in
   let '(caddr, l) := pop1 l in
   let '(code, l) :=
@@ -71,6 +70,10 @@ Definition evm_run (inp : list Z) : list Z :=
   let '(depth, l) := pop1 l in
   let '(dl, l) := pop1 l in
   let '(data, l) := popn dl l in
+  (* naming of CREATE2 addresses: n; (EVM address; name)*   -- absent / 0 = the EVM *)
+  let '(nn, l) := pop1 l in
+  let '(names, l) := parse_pairs (Z.to_nat nn) l in
+  let blk := mkBlock bf ci cb df gl nu ts names in
   let e := mkEnv this code caller origin value data (negb (static =? 0)) (Z.to_nat depth) blk in
   match run_message lim (Z.to_nat fuel) e w ctr with
   | ROk w' ctr' ret logs => [0; 0; ctr'] ++ enc_bytes ret ++ enc_logs logs ++ enc_world w'
